@@ -23,8 +23,9 @@ pub fn run(ctx: &Ctx) -> i32 {
     let cases = ctx.cases(400_000, 12_000_000);
     let r = run_recipes(ctx.seed, cases, ctx.threads, 6, |r, stats| {
         let fmt = if r.sel[7] & 1 == 0 { Fmt::F64 } else { Fmt::F32 };
-        let c = match pick_w(r.sel[0], &[75, 25]) {
+        let c = match pick_w(r.sel[0], &[72, 24, 4]) {
             0 => gen::g_g(fmt, r, lim),
+            2 => gen::g_p(fmt, r),
             _ => {
                 // closest approaches with tails only
                 let mut r2 = r.clone();
